@@ -4,9 +4,9 @@ package main
 // constructors instead of being looked up by their internal names.
 
 import (
+	"go/types"
 	"sort"
 	"strings"
-	"go/types"
 
 	"golang.org/x/tools/go/ssa"
 )
